@@ -14,4 +14,5 @@ INVARIANT SuccessIff
 INVARIANT TimeoutIsError
 INVARIANT InterruptIsError
 INVARIANT AfterRun
+INVARIANT BaseSurvives
 CHECK_DEADLOCK FALSE
